@@ -35,7 +35,7 @@ func (c03) NumCases(tier string, _ int64) int {
 }
 func (c03) Exhaustive(string) bool { return false }
 func (c03) Floors(string) []runner.Floor {
-	return []runner.Floor{{Stat: "purges_observed", Min: 200}, {Stat: "twin_comparisons", Min: 200}}
+	return []runner.Floor{{Stat: "purges_observed", Min: 200}, {Stat: "twin_comparisons", Min: 200}, {Stat: "single_writer_histories", Min: 100}}
 }
 
 type c03Worker struct{ *simWorker }
